@@ -38,6 +38,9 @@ CHECKS = {
  "C08": dict(technique="static analysis: exact-length closure and validator must-pass rules over enumerated decode paths, symbolic encode∘decode composition with a table of inverse library pairs, component-wise Clone check, public-key derivation terms",
    text="For every HasKey impl (6 backends x 5 kinds): decode is closed by the kind's exact width, encode(decode(b)) = b symbolically (no canonicalising/truncating decoder), each success path passes the key type's validating constructor, Ed25519 secret decoders re-derive and compare the public half, manual Clone impls are component-wise, public_key() is the scheme's public key of that secret and equals the embedded half. One known finding (D7: libsodium public keys are length-checked only) is listed in known_findings.json.",
    ref="DESIGN.md §4 C08"),
+ "C04": dict(technique="static analysis: census of every panic-capable MIR construct (Assert terminators, unwrap/expect, indexing, split_at, copy_from_slice, explicit panics, dependency APIs documented to panic) discharged by a flow-sensitive interval and slice-length abstract interpretation with context-sensitive workspace callees; FFI status/ownership/buffer-length dataflow rules; unsafe-operation census",
+   text="Every one of the ~290 panic-capable sites in the 8 library crates is proved unreachable or its precondition proved from intervals and exact length algebra (overflow asserts included, so release builds cannot wrap either), or is covered by a dependency contract quoted from the dependency source, or by a reviewed row (7 classes, count-capped). aws-lc FFI: every key/signature object is constructed only after all setters returned 1, ownership is detached only after ECDSA_SIG_set0 succeeded, set_len is paired with reserve and successful writes of exactly the added bytes, every (pointer, length) pair passed to aws-lc stays inside its buffer, public keys reach the FFI decoder only as exactly 49 bytes (D5), unsafe operations are confined to lc and base64. Does not decide panics or memory errors inside dependencies (e.g. the rsa crate's key parser), allocation failure, stack depth or KDF cost exhaustion.",
+   ref="DESIGN.md §4 C04"),
  "C14": dict(technique="static analysis: writer/reader member-table extraction (def-use origins + dominators over Serialize, byte-trie reconstruction from all MIR paths of visit_bytes, per-arm local/field mapping in visit_map) and single-call transparency rule for the Json<T> wrappers",
    text="Decides the structural clause only: the Serialize impl and the hand-written Deserialize visitor of RegisteredClaims implement the same bijection between the 7 member names and the 7 fields, absent fields emit nothing, duplicate checks test the assigned local and name the same member, member names are read through deserialize_identifier (escaped names reach visit_str), values are requested at the field's own type, unknown members are consumed as IgnoredAny; Json<T>/RegisteredClaims payload and footer encode/decode are one serde_json call on the whole wrapped value/input with the result passed through, empty footer rejected. RFC 3339/nanosecond fidelity and escaping are jiff's/serde_json's contracts and are not decided.",
    ref="DESIGN.md §4 C14"),
